@@ -327,6 +327,18 @@ pub fn run_property<P: Property>(p: P, tier: Tier, seed: u64, extra: Extra) -> i
             }
         }
     }
+    // extra cases handed over by a side channel (e.g. crash inputs of the fuzz campaign)
+    if let Ok(dir) = std::env::var("VERIF_EXTRA_CASES") {
+        if let Ok(rd) = std::fs::read_dir(&dir) {
+            let mut files: Vec<_> = rd.filter_map(|e| e.ok()).map(|e| e.path()).filter(|p| p.extension().map(|e| e == "json").unwrap_or(false)).collect();
+            files.sort();
+            for f in files {
+                if let Ok(c) = read_case::<P::Case>(&f) {
+                    fixed.push((format!("extra:{}", f.display()), c));
+                }
+            }
+        }
+    }
     let fixed_list = if std::env::var("VERIF_SKIP_FIXED").is_ok() { vec![] } else { p.fixed_cases(tier) };
     let fixed_n = fixed_list.len() as u64;
     for (i, c) in fixed_list.into_iter().enumerate() {
@@ -479,6 +491,15 @@ pub fn run_property<P: Property>(p: P, tier: Tier, seed: u64, extra: Extra) -> i
     for (k, v) in extra {
         cov.insert(k, v);
     }
+    if let Ok(f) = std::env::var("VERIF_EXTRA_EVIDENCE") {
+        if let Ok(text) = std::fs::read_to_string(&f) {
+            if let Ok(serde_json::Value::Object(m)) = serde_json::from_str::<serde_json::Value>(&text) {
+                for (k, v) in m {
+                    cov.insert(k, v);
+                }
+            }
+        }
+    }
     let mut assumptions: Vec<String> = p.assumptions().iter().map(|s| s.to_string()).collect();
     assumptions.push("contracts run natively under the soroban-sdk 22 test host (no wasm32 build of the current source)".into());
     assumptions.push("host crypto (ed25519-dalek verify_strict, Keccak) and the host's authorisation framework are trusted".into());
@@ -513,6 +534,7 @@ pub fn run_property<P: Property>(p: P, tier: Tier, seed: u64, extra: Extra) -> i
     );
     for (k, (n, d)) in &st.known {
         let what = known.iter().find(|f| f.property == id && &f.key == k).map(|f| f.what.clone()).unwrap_or_default();
+        let d: String = d.chars().take(200).collect();
         println!("KNOWN-FINDING: property={} key={} hits={} {} (e.g. {})", id, k, n, what, d);
     }
     if let Some(f) = failure {
